@@ -13,6 +13,11 @@ UNWIRE = {v: k for k, v in WIRE.items()}
 
 def pkt(cmd, a0, a1, data=b"", bad_sum=False, bad_cmd=False):
     w = WIRE[cmd]
+    if isinstance(bad_cmd, tuple):
+        # ("trunc", announced_length, word): a de-synchronised / garbage header: unknown command word, a non-zero announced length and no
+        # payload behind it
+        w = struct.unpack("<I", bad_cmd[2])[0] if isinstance(bad_cmd[2], (bytes, bytearray)) else w ^ int(bad_cmd[2])
+        return struct.pack("<6I", w, a0, a1, int(bad_cmd[1]), sum(data) & 0xFFFFFFFF, w ^ 0xFFFFFFFF)
     if bad_cmd:
         # True: flip one low bit; an int: XOR mask (e.g. a high bit, giving a non-ASCII command word); bytes: that very word
         if isinstance(bad_cmd, (bytes, bytearray)):
@@ -223,11 +228,11 @@ class SimDevice(object):
         while st.outq and (burst or not st.waiting_okay):
             payload = st.outq.pop(0)
             st.wrote.append(payload)
-            self.send(A_WRTE, st.remote, st.local, payload)
+            self.send(A_WRTE, st.remote, 0 if self.cfg.get("zero_local") else st.local, payload)   # zero_local: a device that leaves the host's id out (the case allow_zeros exists for)
             st.waiting_okay = True
         if not st.outq and st.close_after and (burst or not st.waiting_okay) and not st.closed:
             st.closed = True
-            self.send(A_CLSE, st.remote, st.local)
+            self.send(A_CLSE, st.remote, 0 if self.cfg.get("zero_local") else st.local)
 
     def on_okay(self, local, remote):
         st = self.streams.get(local)
